@@ -10,7 +10,7 @@
 #include <netinet/in.h>
 #include <arpa/inet.h>
 
-struct in_s { uint8_t txt[TLEN + 1]; uint8_t addr[16]; uint16_t port; };
+struct in_s { uint8_t txt[TLEN + 1]; uint8_t addr[16]; uint16_t port; uint8_t deco[4]; uint16_t preflen; };
 #include "verif_in.h"
 
 static int g_ntop_calls, g_ntop_bad_size;
@@ -32,8 +32,14 @@ static int v_inet_pton(int af, const char *src, void *dst) {
 #define inet_ntop v_inet_ntop
 #define inet_pton v_inet_pton
 #include "net/socket_address.c"
+#if MODE == 2
+#include "net/utils.c"
+#endif
 #undef inet_ntop
 #undef inet_pton
+#ifndef MODE
+#define MODE 0
+#endif
 
 static size_t ref_u16(uint16_t v, char *out) {	/* canonical decimal */
 	char tmp[6]; size_t n = 0;
@@ -72,6 +78,67 @@ void harness(void) {
 	if (with_port) { exp[en++] = ':'; en += ref_u16(IN.port, exp + en); }
 	exp[en] = 0;
 
+#if MODE == 1
+	/* address without port: sa_addr_to_str into BS bytes; then sa_addr_from_str of the text wrapped in the documented
+	 * decorations: NL leading and NT trailing characters out of {space, tab, '[' / ']'} chosen by the solver */
+	{
+		char *b1 = (char *)v_alloc(BS);
+		size_t ret1 = 7777;
+		int r1 = sa_addr_to_str(&ss, b1, BS, &ret1);
+#if BS > 0
+		if (r1 == 0) {
+			V_ASSERT(ret1 == TLEN && BS > TLEN, "addr_to_str: reported length == strlen, fits");
+			for (size_t i = 0; i < TLEN; i++) V_ASSERT(b1[i] == (char)IN.txt[i], "addr_to_str: text == libc text");
+			V_ASSERT(b1[TLEN] == 0, "addr_to_str: NUL terminated");
+			V_WITNESS("addr formatted");
+		} else {
+			V_ASSERT(BS <= TLEN + 1, "addr_to_str refuses only buffers that cannot hold text + NUL (+1 slack)");
+			V_WITNESS("addr refused");
+		}
+		if (BS >= TLEN + 2) V_ASSERT(r1 == 0, "addr_to_str accepts a buffer with room");
+#else
+		V_ASSERT(r1 == EINVAL, "zero-size buffer refused");
+#endif
+		char *in = (char *)v_alloc(TLEN + NL + NT);
+		size_t o = 0;
+		for (size_t i = 0; i < NL; i++) { uint8_t c = IN.deco[i]; V_ASSUME(c == ' ' || c == '\t' || c == '['); in[o++] = (char)c; }
+		for (size_t i = 0; i < TLEN; i++) in[o++] = (char)IN.txt[i];
+		for (size_t i = 0; i < NT; i++) { uint8_t c = IN.deco[2 + i]; V_ASSUME(c == ' ' || c == '\t' || c == ']'); in[o++] = (char)c; }
+		struct sockaddr_storage back;
+		memset(&back, 0xee, sizeof(back));
+		int r2 = sa_addr_from_str(&back, in, TLEN + NL + NT);
+		V_ASSERT(r2 == 0, "addr_from_str accepts the text with documented decorations");
+		V_ASSERT(back.ss_family == ss.ss_family && sa_port_get(&back) == 0, "family set, port zero");
+		V_ASSERT(0 == memcmp(sa_addr_get(&back), IN.addr, AF == 4 ? 4 : 16), "address recovered");
+		/* a text libc rejects is rejected (unless it is a UNIX path) */
+		char *junk = (char *)v_alloc(TLEN);
+		for (size_t i = 0; i < TLEN; i++) junk[i] = (char)IN.txt[i];
+		junk[TLEN - 1] = (char)(IN.txt[TLEN - 1] == '1' ? '2' : '1');	/* differs from the one accepted text */
+		if (junk[0] != '/' && junk[0] != '.')
+			V_ASSERT(sa_addr_from_str(&back, junk, TLEN) == EINVAL, "text rejected by libc is rejected");
+		V_WITNESS_MUST("end mode 1");
+	}
+#elif MODE == 2
+	{	/* "addr/len": str_net_to_ss */
+		char in[TLEN + 8]; size_t o = 0;
+		for (size_t i = 0; i < TLEN; i++) in[o++] = (char)IN.txt[i];
+		uint16_t pl = IN.preflen;
+		V_ASSUME(pl <= (AF == 4 ? 32 : 128));
+		in[o++] = '/';
+		o += ref_u16(pl, in + o);
+		char *inb = (char *)v_buf(in, o);
+		struct sockaddr_storage back;
+		uint16_t got = 0xeeee;
+		int r3 = str_net_to_ss(inb, o, &back, &got);
+		V_ASSERT(r3 == 0, "str_net_to_ss accepts addr/len");
+		V_ASSERT(got == pl, "prefix length parsed");
+		V_ASSERT(0 == memcmp(sa_addr_get(&back), IN.addr, AF == 4 ? 4 : 16), "network address parsed");
+		uint16_t got2 = 0xeeee;
+		char *inb2 = (char *)v_buf(in, TLEN);
+		V_ASSERT(str_net_to_ss(inb2, TLEN, &back, &got2) == 0 && got2 == (AF == 4 ? 32 : 128), "missing /len means host prefix");
+		V_WITNESS_MUST("end mode 2");
+	}
+#else
 	char *buf = (char *)v_alloc(BS);
 	size_t ret = 7777;
 	int r = sa_addr_port_to_str(&ss, buf, BS, &ret);
@@ -99,5 +166,6 @@ void harness(void) {
 	}
 	if (BS >= en + 8) V_ASSERT(r == 0, "a buffer with room for text, port and NUL is accepted");
 	V_WITNESS_MUST("end");
+#endif
 #endif
 }
